@@ -163,6 +163,35 @@ PerpV(V, w) == IF V.q > 0 THEN (IF Dot(V.n, w) = 0 THEN 0 ELSE 2)
 CloseV(x, y) == Verdict(FxDiff(x, y), 1)
 FxIsZero(x) == CloseV(x, <<0, 0, 0>>)
 
+\* ------------------------------------------------------------------ nearly axis-aligned ("tilted") directions
+\* A big vector  w = [s, c, ax, facs]  stands for  s + c * Big * e_ax  with a small integer vector s (|s_k| <= 5), a small
+\* integer c and Big = the product of facs (each factor <= 1000): e.g. the direction (1, 0, 10^7).  Products with Big
+\* do not fit into 32 bits, so (w . u) / Big = (s . u) / Big + c * u[ax] is evaluated on the limbs: the limbs of s . u are
+\* divided by the factors one after the other (schoolbook division, floor; error < 1 unit per factor).
+RECURSIVE Prod(_)
+Prod(f) == IF f = <<>> THEN 1 ELSE Head(f) * Prod(Tail(f))
+BigInts(w) == [k \in 1..Len(w.s) |-> w.s[k] + (IF k = w.ax THEN w.c * Prod(w.facs) ELSE 0)]
+FxLimbDot(s, u) == <<SumF(LAMBDA k : s[k] * u[k][1], Len(u)), SumF(LAMBDA k : s[k] * u[k][2], Len(u)),
+                     SumF(LAMBDA k : s[k] * u[k][3], Len(u))>>
+DivLimbs(L, d) == LET t2 == (L[1] % d) * LB + L[2]
+                      t3 == (t2 % d) * LB + L[3]
+                  IN <<L[1] \div d, t2 \div d, t3 \div d>>
+RECURSIVE DivAll(_, _)
+DivAll(L, facs) == IF facs = <<>> THEN L ELSE DivAll(DivLimbs(L, Head(facs)), Tail(facs))
+\* value of (not necessarily normalised) limbs in units of 2^-39; HUGE: certainly beyond 1.9e-3
+FxCombine(L) == IF Abs(L[1]) >= 131072 THEN HUGE
+                ELSE LET M == L[1] * LB + L[2] IN IF Abs(M) >= 131072 THEN HUGE ELSE M * LB + L[3]
+\* (w . u) / Big in units of 2^-39 (c = 0: w = s is a small vector, plain w . u)
+FxBigDotRel(w, u) ==
+  IF w.c = 0 THEN FxIntDot(w.s, u)
+  ELSE LET q == DivAll(FxLimbDot(w.s, u), w.facs)
+           x == u[w.ax]
+       IN FxCombine(<<q[1] + w.c * x[1], q[2] + w.c * x[2], q[3] + w.c * x[3]>>)
+BigScale(w) == IF w.c = 0 THEN ScaleOf(w.s) ELSE Abs(w.c) + 1          \* >= |w| / Big
+BigPerpV(w, u) == IF ~FxVecOk(u) THEN 2 ELSE Verdict(FxBigDotRel(w, u), BigScale(w))
+\* leading limbs of (w . u) / Big, units of 2^-13 (the s part is below one unit)
+BigDotCoarse(w, u) == w.c * u[w.ax][1]
+
 \* diagonal block b (1-based) of a (d*k) x (d*k) encoded matrix
 SubSq(A, b, d) == [i \in 1..d |-> [j \in 1..d |-> A[(b - 1) * d + i][(b - 1) * d + j]]]
 Block(M, b, d) == [q |-> M.q, n |-> IF M.q > 0 THEN SubSq(M.n, b, d) ELSE <<>>, fx |-> SubSq(M.fx, b, d)]
